@@ -175,16 +175,13 @@ impl Widget {
         let actions = if let Some(p) = properties_code_map.get("actions") {
             if let Some(refs) = expr::build_object_ref_list(p, diagnostics) {
                 refs.into_iter()
-                    .map(|id| {
-                        let o = ctx
-                            .object_tree
-                            .get_by_id(&id)
-                            .expect("object ref must be valid");
-                        if is_action_separator(ctx, o, diagnostics) {
+                    .map(|id| match ctx.object_tree.get_by_id(&id) {
+                        Some(o) if is_action_separator(ctx, o, diagnostics) => {
                             ACTION_SEPARATOR_NAME.to_owned()
-                        } else {
-                            id
                         }
+                        // an object without id (i.e. implicit "this") is referenced by
+                        // the generated name, which can't be looked up by id
+                        Some(_) | None => id,
                     })
                     .collect()
             } else {
